@@ -1,5 +1,480 @@
 import Aiortc.Model.Sctp.Endpoint
-/-! # C06 (placeholder while the theorems are being written) -/
+import Aiortc.Model.Sctp.Forward
+import Aiortc.Lemmas.C06.SctpRuns
+import Aiortc.Lemmas.C06.SctpAbandon
+import Aiortc.Lemmas.C06.SctpAbandonWire
+import Aiortc.Lemmas.C06.SctpPopTotal
+import Aiortc.Lemmas.C06.SctpAdvAck
+import Aiortc.Lemmas.C06.SctpPop
+import Aiortc.Lemmas.C06.SctpPopComplete
+import Aiortc.Lemmas.C06.SctpUniverse
+import Aiortc.Lemmas.C06.SctpSend
+import Aiortc.Lemmas.C06.SctpIntegrity
+import Aiortc.Lemmas.C06.SctpRxIntegrity
+import Aiortc.Lemmas.C06.SctpForward
+import Aiortc.Lemmas.C06.SctpRecover
+import Aiortc.Props.C17
+/-!
+# C06 — partially reliable channels drop only whole messages and never disturb others
+
+All theorems are about the executable model of `rtcsctptransport.py` in `Model/Sctp/{Inbound,Outbound}.lean`
+(the functions the endpoint automaton `Endpoint.step` is built from, replayed against two real endpoints by
+`./check C06`) and about `Model/Sctp/Forward.lean` (pure restatement of the stream part of
+`_receive_forward_tsn_chunk`, tied to the real method by the `fwd` component of the check).
+They hold for ALL queues / histories / arrival lists (induction, no enumeration).
+
+Sender: (a) `abandon_whole_message*`, `abandon_flight*`, `abandon_noop`, `reliable_never_abandoned`,
+            `abandon_never_alters_queue`;
+        (b) `adv_ack_only_over_abandoned`, `forward_tsn_streams`, `forward_tsn_pending`, `forward_tsn_sent_first`.
+Receiver: (c) `prune_rule`, `prune_runs`, `prune_keeps_complete`;
+        (d) `reliable_unaffected`, `forward_tsn_unlisted_stream`, `forward_tsn_seq_not_backwards`;
+        (e) `pr_integrity`, `pr_integrity_arrivals`, `pop_sound`, `pop_total`, `send_fragments_are_messages`;
+        (f) `pr_recovers_partial`.
+What is NOT proved is kept as `def … : Prop` (`pr_delivery_full`, `pr_recovers_full`) with the gap spelled out.
+-/
 namespace Aiortc.Props.C06
+open Aiortc.Gen Aiortc.Sctp
+
+/-! ## constants the statements depend on (a mutated constant breaks the build) -/
+
 theorem userdata_max_const : Aiortc.Gen.USERDATA_MAX_LENGTH = 1200 := by decide
+theorem flag_consts : SCTP_DATA_LAST_FRAG = 1 ∧ SCTP_DATA_FIRST_FRAG = 2 ∧ SCTP_DATA_UNORDERED = 4 := by decide
+set_option maxRecDepth 100000 in
+/-- the arithmetic bit tests of the model are the masks of the code on every flags byte. -/
+theorem flag_tests : ∀ f : Fin 256,
+    flagE f.val = (f.val &&& SCTP_DATA_LAST_FRAG != 0) ∧ flagB f.val = (f.val &&& SCTP_DATA_FIRST_FRAG != 0) ∧
+    flagU f.val = (f.val &&& SCTP_DATA_UNORDERED != 0) := by decide
+
+/-! ## (a) `_maybe_abandon` abandons exactly one whole message -/
+
+/-- **abandon_whole_message** (E fragment already sent).  The sent queue is `pre ++ m ++ post` where
+`m = a ++ x :: b` are the fragments of ONE message (B flag on the first and only the first, E flag on the
+last and only the last) and `x` — at position `|pre| + |a|` — is a not-yet-abandoned fragment whose
+retransmit limit / lifetime is exceeded.  Then `_maybe_abandon(x)` returns `True`, marks exactly the
+fragments of `m` (`abandoned = True`, `retransmit = False`, out of flight), takes exactly their in-flight
+bytes out of `_flight_size`, and changes nothing else: `pre`, `post`, the outbound queue and every other
+field of the transport are untouched. -/
+theorem abandon_whole_message (t : Tx) (pre a b post : List SChunk) (x : SChunk) (now : Int)
+    (hq : t.sentQ = pre ++ (a ++ x :: b) ++ post) (hm : IsMsg (a ++ x :: b))
+    (hx : x.abandoned = false) (hs : shouldAbandon x now = true) :
+    t.maybeAbandon (pre.length + a.length) now =
+      (true, { t with flight := t.flight - inflightBytes (a ++ x :: b),
+                      sentQ := pre ++ (a ++ x :: b).map abSent ++ post }) := by
+  have hB : FirstOnlyB (a ++ [x]) :=
+    firstOnlyB_prefix (a ++ [x]) b (by simpa using hm.1) (by simp)
+  have hE : LastOnlyE (x :: b) := (lastOnlyE_split a (x :: b) hm.2 (by simp)).2
+  exact maybeAbandon_sent t pre a b post x now hq hx hs hB hE
+
+/-- **abandon_whole_message**, message larger than the window: only the part `a ++ x :: b` of the message has
+been sent (it is the tail of the sent queue), the rest `u` is the head of the outbound queue.  The unsent
+remainder is moved to the sent queue, abandoned, so that the advanced ack point and the FORWARD TSN step
+over the whole message and no orphan fragment is ever transmitted. -/
+theorem abandon_whole_message_unsent (t : Tx) (pre a b u rest : List SChunk) (x : SChunk) (now : Int)
+    (hq : t.sentQ = pre ++ (a ++ x :: b)) (ho : t.outQ = u ++ rest) (hu : u ≠ [])
+    (hm : IsMsg ((a ++ x :: b) ++ u))
+    (hx : x.abandoned = false) (hs : shouldAbandon x now = true) :
+    t.maybeAbandon (pre.length + a.length) now =
+      (true, { t with flight := t.flight - inflightBytes (a ++ x :: b),
+                      sentQ := pre ++ (a ++ x :: b).map abSent ++ u.map abUnsent,
+                      outQ := rest }) := by
+  have hB : FirstOnlyB (a ++ [x]) :=
+    firstOnlyB_prefix (a ++ [x]) (b ++ u) (by simpa using hm.1) (by simp)
+  have hsplit := lastOnlyE_split (a ++ x :: b) u hm.2 hu
+  have hE : NoE (x :: b) := noE_suffix a (x :: b) hsplit.1
+  exact maybeAbandon_unsent t pre a b u rest x now hq ho hx hs hB hE hsplit.2
+
+/-- nothing happens when the chunk is already abandoned or has no reason to be. -/
+theorem abandon_noop (t : Tx) (pos : Nat) (now : Int) (c : SChunk) (hc : t.sentQ[pos]? = some c) :
+    (c.abandoned = true → t.maybeAbandon pos now = (true, t)) ∧
+    (c.abandoned = false → shouldAbandon c now = false → t.maybeAbandon pos now = (false, t)) := by
+  constructor
+  · intro h; simp [Tx.maybeAbandon, hc, h]
+  · intro h1 h2; simp [Tx.maybeAbandon, hc, h1, h2]
+
+/-- fragments of reliable channels are never a reason to abandon anything. -/
+theorem reliable_never_abandoned (t : Tx) (pos : Nat) (now : Int) (c : SChunk) (hc : t.sentQ[pos]? = some c)
+    (h0 : c.abandoned = false) (h1 : c.maxRetransmits = none) (h2 : c.expiry = none) :
+    t.maybeAbandon pos now = (false, t) :=
+  (abandon_noop t pos now c hc).2 h0 (shouldAbandon_reliable c now h1 h2)
+
+/-- flight accounting is preserved (both cases): `_flight_size` stays the sum over the sent queue. -/
+theorem abandon_flight (t : Tx) (pre a b post : List SChunk) (x : SChunk) (now : Int)
+    (hq : t.sentQ = pre ++ (a ++ x :: b) ++ post) (hm : IsMsg (a ++ x :: b))
+    (hx : x.abandoned = false) (hs : shouldAbandon x now = true) (hf : FlightOk t) :
+    FlightOk (t.maybeAbandon (pre.length + a.length) now).2 := by
+  rw [abandon_whole_message t pre a b post x now hq hm hx hs]
+  refine ⟨?_, hf.2⟩
+  have := hf.1
+  simp only [hq, inflightBytes_append, inflightBytes_map_abSent] at this ⊢
+  omega
+
+theorem abandon_flight_unsent (t : Tx) (pre a b u rest : List SChunk) (x : SChunk) (now : Int)
+    (hq : t.sentQ = pre ++ (a ++ x :: b)) (ho : t.outQ = u ++ rest) (hu : u ≠ [])
+    (hm : IsMsg ((a ++ x :: b) ++ u))
+    (hx : x.abandoned = false) (hs : shouldAbandon x now = true) (hf : FlightOk t) :
+    FlightOk (t.maybeAbandon (pre.length + a.length) now).2 := by
+  rw [abandon_whole_message_unsent t pre a b u rest x now hq ho hu hm hx hs]
+  have hout : ∀ c ∈ u, c.inFlight = false := fun c hc => hf.2 c (by simp [ho, hc])
+  refine ⟨?_, fun c hc => hf.2 c (by simp [ho, hc])⟩
+  have := hf.1
+  simp only [hq, inflightBytes_append, inflightBytes_map_abSent, inflightBytes_map_abUnsent u hout] at this ⊢
+  omega
+
+/-- what goes on the wire (TSN, stream, ssn, ppid, flags, payload) is never altered by abandoning. -/
+theorem abandon_keeps_wire (c : SChunk) : (abSent c).toR = c.toR ∧ (abUnsent c).toR = c.toR := ⟨rfl, rfl⟩
+
+/-- **Unconditional** (any queues, any position, well-formed or not): `_maybe_abandon` never loses,
+duplicates, reorders or alters a chunk of any channel — the concatenation sent queue ++ outbound queue, as the
+peer sees it, is exactly what it was; only the boundary between the two queues may move forward. -/
+theorem abandon_never_alters_queue (t : Tx) (pos : Nat) (now : Int) :
+    wire (t.maybeAbandon pos now).2.sentQ ++ wire (t.maybeAbandon pos now).2.outQ = wire t.sentQ ++ wire t.outQ ∧
+    t.sentQ.length ≤ (t.maybeAbandon pos now).2.sentQ.length := maybeAbandon_wire t pos now
+
+/-- the hypothesis `IsMsg` is what `_send` produces for every non-empty message. -/
+theorem send_fragments_are_messages (t : Tx) (r : SendReq) (h : reqFrags t r ≠ []) :
+    IsMsg (reqFrags t r) ∧ (reqFrags t r).flatMap (·.data) = r.data ∧
+    (t.enqueueReq r).outQ = t.outQ ++ reqFrags t r ∧
+    TsnSeq t.localTsn ((reqFrags t r).map SChunk.toR) :=
+  ⟨reqFrags_isMsg t r h, reqFrags_data t r, rfl, reqFrags_tsn t r⟩
+
+/-! non-vacuity: a 3-fragment message of a `maxRetransmits = 0` channel, two fragments sent, one unsent -/
+private def f1 : SChunk := { tsn := 10, sid := 1, ssn := 0, ppid := 53, flags := 2, data := [1], bookSize := 1,
+                             maxRetransmits := some 0, sentCount := 1, inFlight := true }
+private def f2 : SChunk := { f1 with tsn := 11, flags := 0, data := [2] }
+private def f3 : SChunk := { f1 with tsn := 12, flags := 1, data := [3], sentCount := 0, inFlight := false }
+private def tx0 : Tx := { cwnd := 2, ssthresh := 0, localTsn := 13, lastSacked := 9, advAck := 9,
+                          flight := 2, sentQ := [f1, f2], outQ := [f3] }
+example : IsMsg ([f1, f2] ++ [f3]) ∧ shouldAbandon f2 0 = true ∧ FlightOk tx0 := by
+  refine ⟨⟨⟨by decide, ?_⟩, (show flagE f1.flags = false by decide), (show flagE f2.flags = false by decide),
+    (show flagE f3.flags = true by decide)⟩, by decide, by decide, ?_⟩
+  · intro c hc
+    have hc' : c = f2 ∨ c = f3 := by simpa using hc
+    rcases hc' with rfl | rfl <;> decide
+  · intro c hc
+    have hc' : c = f3 := by simpa [tx0] using hc
+    subst hc'; decide
+example : (tx0.maybeAbandon 1 0).2.sentQ = [abSent f1, abSent f2, abUnsent f3] ∧ (tx0.maybeAbandon 1 0).2.outQ = []
+    ∧ (tx0.maybeAbandon 1 0).2.flight = 0 := by decide
+
+/-! ## (b) the advanced peer ack point only moves over abandoned chunks -/
+
+theorem mem_takeWhile_true {α} (p : α → Bool) (l : List α) : ∀ c ∈ l.takeWhile p, p c = true := by
+  induction l with
+  | nil => simp
+  | cons a l ih =>
+    intro c hc
+    rw [List.takeWhile_cons] at hc
+    split at hc
+    · rcases List.mem_cons.1 hc with rfl | hc
+      · assumption
+      · exact ih c hc
+    · simp at hc
+
+/-- **adv_ack_only_over_abandoned**.  `_update_advanced_peer_ack_point` pops exactly the maximal abandoned
+prefix of the sent queue (nothing that is not abandoned, nothing behind a chunk that is not abandoned);
+`advAck` ends at the TSN of the last popped chunk, or stays (catching up with `lastSacked`) when nothing
+is popped. -/
+theorem adv_ack_only_over_abandoned (t : Tx) :
+    let popped := t.sentQ.takeWhile (·.abandoned)
+    let t' := t.updateAdvAck
+    t.sentQ = popped ++ t'.sentQ ∧ (∀ c ∈ popped, c.abandoned = true) ∧
+    (∀ c ∈ t'.sentQ.head?, c.abandoned = false) ∧
+    t'.advAck = ((popped.getLast?.map (·.tsn)).getD
+                  (if uint32_gte t.lastSacked t.advAck then t.lastSacked else t.advAck)) ∧
+    t'.outQ = t.outQ ∧ t'.flight = t.flight ∧ t'.lastSacked = t.lastSacked := by
+  simp only [updateAdvAck_eq]
+  refine ⟨(List.takeWhile_append_dropWhile).symm, ?_, ?_, trivial, trivial, trivial, trivial⟩
+  · intro c hc; exact mem_takeWhile_true _ _ c hc
+  · intro c hc
+    have := List.head?_dropWhile_not (fun c : SChunk => c.abandoned) t.sentQ
+    simp only [Option.mem_def] at hc
+    rw [hc] at this
+    simpa using this
+
+/-- **FORWARD TSN contents**: the chunk built carries the new `advAck` and, for every ordered stream, the
+ssn of the LAST popped chunk of that stream (streams without a popped ordered chunk keep the entry of the
+FORWARD TSN still pending, if any). -/
+theorem forward_tsn_streams (t : Tx) (sid : Nat) :
+    let popped := t.sentQ.takeWhile (·.abandoned)
+    let t' := t.updateAdvAck
+    (t'.forwardNeeded = true → t'.forwardTsn = some (t'.advAck, t'.forwardStreams)) ∧
+    dictGet t'.forwardStreams sid =
+      match lastOrdered popped sid with
+      | some c => some c.ssn
+      | none => dictGet (if uint32_gte t.lastSacked t.advAck then [] else t.forwardStreams) sid := by
+  simp only [updateAdvAck_eq]
+  refine ⟨?_, foldl_fwdNote_get _ _ sid⟩
+  intro h; simp only [h, ↓reduceIte]
+
+/-- **A FORWARD TSN stays pending exactly until `lastSacked` catches up**: it is needed after the call iff
+something was popped now, or it was needed before and the peer's cumulative ack has not reached `advAck`;
+whenever it is needed it is (re-)armed, so that the next `_transmit` sends it again. -/
+theorem forward_tsn_pending (t : Tx) :
+    let popped := t.sentQ.takeWhile (·.abandoned)
+    let t' := t.updateAdvAck
+    (t'.forwardNeeded = true ↔
+      (popped ≠ [] ∨ (t.forwardNeeded = true ∧ uint32_gte t.lastSacked t.advAck = false))) ∧
+    (t'.forwardNeeded = true → t'.forwardTsn.isSome = true) ∧
+    (t'.forwardNeeded = false → t'.forwardTsn = t.forwardTsn) := by
+  simp only [updateAdvAck_eq]
+  refine ⟨?_, ?_, ?_⟩
+  · cases h : uint32_gte t.lastSacked t.advAck <;> cases hn : t.forwardNeeded <;>
+      cases hp : t.sentQ.takeWhile (·.abandoned) <;> simp
+  · intro h; simp only [h, ↓reduceIte, Option.isSome_some]
+  · intro h; simp only [h, Bool.false_eq_true, ↓reduceIte]
+
+/-- `_transmit` sends a pending FORWARD TSN before anything else and clears it. -/
+theorem forward_tsn_sent_first (t : Tx) :
+    ∃ rest, (t.transmit).2 =
+        (match t.forwardTsn with | some (cum, streams) => [TxEv.fwd cum streams] | none => []) ++ rest
+      ∧ (t.transmit).1.forwardTsn = none := transmit_fwd t
+
+private def tx1 : Tx := { tx0 with sentQ := [abSent f1, abSent f2, abUnsent f3], outQ := [], flight := 0 }
+example : tx1.updateAdvAck.advAck = 12 ∧ tx1.updateAdvAck.sentQ = [] ∧
+    tx1.updateAdvAck.forwardTsn = some (12, [(1, 0)]) := by decide
+example : ({ tx1.updateAdvAck with forwardTsn := none }).updateAdvAck.forwardTsn = some (12, [(1, 0)]) := by decide
+example : ({ tx1.updateAdvAck with forwardTsn := none, lastSacked := 12 }).updateAdvAck.forwardTsn = none := by
+  decide
+
+/-! ## (c) what `prune_chunks` removes -/
+
+/-- **prune_rule**.  Cut the reassembly queue into its maximal runs (`runsOf`: fragments that follow each
+other with consecutive TSNs, no E fragment inside, no B fragment inside).  `prune_chunks(tsn)` removes
+exactly the runs that lack a fragment with TSN ≤ `tsn` (`runDead`: no B fragment at the front and the TSN
+just before it is ≤ `tsn`, or no E fragment at the end and the TSN just after it is ≤ `tsn`), keeps all
+other runs in order, leaves the expected sequence number alone and returns exactly the bytes it removed. -/
+theorem prune_rule (s : InStream) (tsn : Int) :
+    let kept := (runsOf s.reasm).filter (fun g => !runDead tsn g)
+    let dead := (runsOf s.reasm).filter (runDead tsn)
+    (s.pruneChunks tsn).1.reasm = kept.flatten ∧
+    (s.pruneChunks tsn).2 = (dead.map bytesOf).sum ∧
+    (s.pruneChunks tsn).1.seq = s.seq ∧
+    bytesOf (s.pruneChunks tsn).1.reasm + (s.pruneChunks tsn).2 = bytesOf s.reasm ∧
+    (s.pruneChunks tsn).1.reasm.Sublist s.reasm := by
+  refine ⟨?_, ?_, ?_, ?_, pruneChunks_sublist s tsn⟩
+  · rw [pruneChunks_eq]
+  · rw [pruneChunks_eq]
+  · rw [pruneChunks_eq]
+  · rw [pruneChunks_eq]
+    have := filter_bytes_split (runDead tsn) (runsOf s.reasm)
+    rw [runsOf_flatten] at this
+    exact this
+
+/-- the runs are what the docstring says: they partition the queue, each is a non-empty chain of joining
+fragments, and neighbouring runs do not join (maximality). -/
+theorem prune_runs (l : List RChunk) :
+    (runsOf l).flatten = l ∧ (∀ g ∈ runsOf l, ∃ c r, g = c :: r ∧ Chained c r) ∧ AdjOk (runsOf l) :=
+  ⟨runsOf_flatten l, runsOf_chained l, runsOf_adjOk l⟩
+
+/-- complete runs (B … E) are never removed, whatever `tsn`; a run is removed only for a missing fragment
+whose TSN is covered by `tsn`. -/
+theorem prune_keeps_complete (tsn : Int) (first : RChunk) (run : List RChunk) :
+    (flagB first.flags = true → flagE (runLast first run).flags = true → runDead tsn (first :: run) = false) ∧
+    (runDead tsn (first :: run) = true ↔
+      ((flagB first.flags = false ∧ uint32_gte tsn (tsn_minus_one first.tsn) = true) ∨
+       (flagE (runLast first run).flags = false ∧ uint32_gte tsn (tsn_plus_one (runLast first run).tsn) = true))) := by
+  constructor
+  · intro h1 h2; simp [runDead, h1, h2]
+  · simp [runDead]
+
+private def r1 : RChunk := { tsn := 5, sid := 1, ssn := 0, ppid := 53, flags := 0, data := [1, 2] }   -- middle
+private def r2 : RChunk := { tsn := 8, sid := 1, ssn := 1, ppid := 53, flags := 3, data := [3] }      -- B+E
+private def r3 : RChunk := { tsn := 9, sid := 1, ssn := 2, ppid := 53, flags := 2, data := [4] }      -- B, no E
+example : (({ reasm := [r1, r2, r3], seq := 0 } : InStream).pruneChunks 4).1.reasm = [r2, r3] ∧
+    (({ reasm := [r1, r2, r3], seq := 0 } : InStream).pruneChunks 4).2 = 2 := by decide
+example : (({ reasm := [r1, r2, r3], seq := 0 } : InStream).pruneChunks 3).1.reasm = [r1, r2, r3] := by decide
+example : (({ reasm := [r1, r2, r3], seq := 0 } : InStream).pruneChunks 10).1.reasm = [r2] := by decide
+
+/-! ## (d) non-interference: a FORWARD TSN leaves other streams alone -/
+
+/-- **reliable_unaffected**.  If no run of a stream's reassembly queue is waiting for a fragment with
+TSN ≤ `cum` — true for the streams of reliable channels, whose fragments the sender never abandons
+(`reliable_never_abandoned`), so that `cum` only covers fragments of theirs that were acknowledged, i.e.
+received — then `prune_chunks(cum)` is the identity on that stream and frees nothing. -/
+theorem reliable_unaffected (s : InStream) (cum : Int) (h : NotWaiting cum s) :
+    s.pruneChunks cum = (s, 0) := pruneChunks_id s cum h
+
+/-- The stream part of `_receive_forward_tsn_chunk`: a stream that the FORWARD TSN does not list is only
+pruned; nothing is popped from it, its expected sequence number does not change, and if it is
+`NotWaiting` (reliable streams) it is left exactly as it was, whatever happens on the listed streams. -/
+theorem forward_tsn_unlisted_stream (cum : Int) (streams : List (Nat × Int)) (ins ins' : List (Nat × InStream))
+    (freed : Nat) (msgs : List Msg) (h : fwdStreams cum streams ins = .ok (ins', freed, msgs))
+    (sid : Nat) (hne : ∀ p ∈ streams, p.1 ≠ sid) :
+    dictGet ins' sid = (dictGet ins sid).map (fun s => (s.pruneChunks cum).1) ∧
+    (∀ s, dictGet ins sid = some s → NotWaiting cum s → dictGet ins' sid = some s) := by
+  have h1 := fwdStreams_unlisted cum streams ins ins' freed msgs h sid hne
+  refine ⟨h1, ?_⟩
+  intro s hs hw
+  rw [h1, hs, Option.map_some, reliable_unaffected s cum hw]
+
+/-- a listed stream's expected sequence number never moves backwards (the `uint16_gt` guard), and is
+otherwise set to the sequence number after the skipped one. -/
+theorem forward_tsn_seq_not_backwards (s : InStream) (sseq : Int) :
+    uint16_gt s.seq (fwdGuard s sseq).seq = false ∧
+    ((fwdGuard s sseq).seq = s.seq ∨ (fwdGuard s sseq).seq = uint16_add sseq 1) ∧
+    (fwdGuard s sseq).reasm = s.reasm := by
+  unfold fwdGuard
+  by_cases h : uint16_gt (uint16_add sseq 1) s.seq = true
+  · simp only [h, ↓reduceIte]
+    exact ⟨Aiortc.Props.C17.uint16_gt_asymm _ _ h, Or.inr trivial, trivial⟩
+  · simp only [h, Bool.false_eq_true, ↓reduceIte]
+    exact ⟨Aiortc.Props.C17.uint16_gt_irrefl _, Or.inl trivial, trivial⟩
+
+example : NotWaiting 4 ({ reasm := [r2, r3], seq := 0 } : InStream) := by
+  intro g hg
+  have : runsOf [r2, r3] = [[r2], [r3]] := by
+    rw [runsOf]
+    have h1 : takeRun r2 [r3] = ([], [r3]) := by decide
+    rw [h1, runsOf]
+    have h2 : takeRun r3 [] = ([], []) := by decide
+    rw [h2, runsOf]
+  simp only [this, List.mem_cons, List.mem_nil_iff, or_false] at hg
+  rcases hg with rfl | rfl <;> decide
+example : fwdStreams 7 [(2, 0)] [(1, { reasm := [r2, r3], seq := 5 }), (2, { reasm := [], seq := 0 })]
+    = .ok ([(1, { reasm := [r2, r3], seq := 5 }), (2, { reasm := [], seq := 1 })], 0, []) := by decide
+
+/-! ## (e) integrity: what is delivered is a sent message, never a splice -/
+
+/-- **pr_integrity**.  The peer has sent the messages `rs` (any mix of streams, ordered/unordered,
+reliable or not, any sizes), fragmented by `_send` from state `t`.  A stream of the receiver starts empty and
+undergoes ANY sequence of the operations the transport performs on it — `add_chunk` of fragments of
+stream `k` that the peer produced, in any order, with any omissions; `prune_chunks` for any FORWARD TSN;
+setting the expected sequence number to anything; `pop_messages` at any time.  Then every message it
+ever yields is `(stream, ppid, bytes)` of ONE message the peer sent on stream `k`: a delivery is never a
+splice of fragments of different messages, never truncated, never from another stream. -/
+theorem pr_integrity (t : Tx) (rs : List SendReq) (hlen : (sentWire t rs).flatten.length < 4294967296)
+    (k : Nat) (ops : List StreamOp)
+    (hops : ∀ c, StreamOp.add c ∈ ops → c ∈ (sentWire t rs).flatten ∧ c.sid = k)
+    (s' : InStream) (out : List Msg) (h : runOps {} ops = .ok (s', out)) :
+    ∀ m ∈ out, ∃ r ∈ rs, r.sid = k ∧ m = { sid := r.sid, ppid := r.ppid, data := r.data } := by
+  have hsound := runOps_sound (fun c => c ∈ (sentWire t rs).flatten ∧ c.sid = k) {} ops s' out
+    (by simp) hops h
+  intro m hm
+  obtain ⟨R, hR, hgood⟩ := hsound.2 m hm
+  obtain ⟨r, hr, hmr⟩ := goodMsg_is_sent t rs hlen R (fun c hc => (hR c hc).1) m hgood
+  refine ⟨r, hr, ?_, hmr⟩
+  obtain ⟨run, _, hsub, _, e, he, hsid, _⟩ := hgood
+  have := (hR e (hsub e (List.mem_of_getLast? he))).2
+  rw [hmr] at hsid
+  simp only at hsid
+  omega
+
+/-- **pr_integrity for the receiver as a whole**, under ARBITRARY arrival lists that may include FORWARD TSN
+chunks.  `rxRun` (Model/Sctp/Forward.lean) feeds DATA chunks through `_mark_received`, `add_chunk` and
+`pop_messages` of their stream, and FORWARD TSN chunks — with ANY cumulative TSN and ANY stream list, honest
+or not — through the cumulative-TSN update, `prune_chunks` on every stream and the sequence-number update +
+`pop_messages` of the listed streams.  If every DATA chunk that arrives (in any order, duplicated, with any
+omissions) is a fragment the peer produced with `_send`, then every message handed to the application on
+any stream, reliable or not, is `(stream, ppid, bytes)` of ONE message the peer sent. -/
+theorem pr_integrity_arrivals (t : Tx) (rs : List SendReq) (hlen : (sentWire t rs).flatten.length < 4294967296)
+    (arrivals : List Arrival) (harr : ∀ c, Arrival.data c ∈ arrivals → c ∈ (sentWire t rs).flatten)
+    (rx0 : Rx) (st' : RxSt) (out : List Msg) (h : rxRun (rx0, []) arrivals = .ok (st', out)) :
+    ∀ m ∈ out, ∃ r ∈ rs, m = { sid := r.sid, ppid := r.ppid, data := r.data } := by
+  have hok := rxRun_ok (fun c => c ∈ (sentWire t rs).flatten) arrivals (rx0, []) st' out
+    (by intro p hp; simp at hp) harr h
+  intro m hm
+  obtain ⟨R, hR, hgood⟩ := hok.2 m hm
+  exact goodMsg_is_sent t rs hlen R hR m hgood
+
+/-- `pop_messages` always terminates normally (the fuel of the loop model is never exhausted), so the `.ok`
+hypotheses of `pop_sound` / `pr_integrity*` only exclude the `AssertionError` of `add_chunk` on a duplicate TSN. -/
+theorem pop_total (s : InStream) : ∃ msgs s', s.popMessages = .ok (msgs, s') := popMessages_total s
+
+/-- `pop_messages` itself: every yielded message is the join of ONE complete run (B fragment, consecutive
+TSNs, first E fragment) of the queue; what stays is a sub-list of the queue. -/
+theorem pop_sound (s s' : InStream) (msgs : List Msg) (h : s.popMessages = .ok (msgs, s')) :
+    (∀ m ∈ msgs, GoodMsg s.reasm m) ∧ s'.reasm.Sublist s.reasm := popMessages_sound s s' msgs h
+
+private def reqA : SendReq := { sid := 1, ppid := 53, data := [7, 8, 9] }
+private def wA : RChunk := { tsn := 13, sid := 1, ssn := 0, ppid := 53, flags := 3, data := [7, 8, 9] }
+example : (sentWire tx0 [reqA]).flatten = [wA] := by decide +kernel
+example : rxRun ({ last := 11, mis := [], dups := [] }, []) [.fwd 12 [(1, 4)], .data wA, .data wA] =
+    .ok (({ last := 13, mis := [], dups := [13] }, [(1, { reasm := [], seq := 5 })]),
+         [{ sid := 1, ppid := 53, data := [7, 8, 9] }]) := by decide +kernel
+example : rxRun ({ last := 12, mis := [], dups := [] }, []) [.data wA] =
+    .ok (({ last := 13, mis := [], dups := [] }, [(1, { reasm := [], seq := 1 })]),
+         [{ sid := 1, ppid := 53, data := [7, 8, 9] }]) := by decide +kernel
+example : runOps {} [.add wA, .prune 3, .setSeq 7, .pop] =
+    .ok ({ reasm := [], seq := 7 }, [{ sid := 1, ppid := 53, data := [7, 8, 9] }]) := by decide
+
+/-- an honest FORWARD TSN for the history `wire` (one fragment list per message, in sending order): it ends at a
+message boundary `j` and lists, for every stream, the ssn of the last ordered message among the first `j`. -/
+def HonestFwd (wire : List (List RChunk)) (cum : Int) (streams : List (Nat × Int)) : Prop :=
+  ∃ j, j ≤ wire.length ∧
+    ((wire.take j).flatten.getLast?.map (·.tsn)) = some cum ∧
+    ∀ sid, dictGet streams sid =
+      (((wire.take j).flatten.filter (fun c => !flagU c.flags && c.sid == sid)).getLast?).map (·.ssn)
+
+/-- **Full delivery statement (NOT proved in Lean; checked on real runs by the `world` oracles
+`oracle_c06`/`oracle_c01`).**  The receiver as a whole (`rxRun`: `_mark_received` in front of the streams), a peer
+that sent `rs`, arrivals that are fragments of `rs` in any order / multiplicity / with omissions plus honest
+FORWARD TSNs, the serial-number windows respected: on every stream the deliveries are a sub-multiset of the sends
+(nothing twice) and, on an ordered stream, a sub-sequence of the sends in sending order.
+The gap between `pr_integrity_arrivals` and this statement is (1) exactly-once acceptance of a TSN by
+`_mark_received` under the window assumption (property C01's invariant), (2) the invariant that the expected ssn
+never passes a message that can still be accepted (needs `HonestFwd` + (1)), and (3) that `Tx.updateAdvAck` only
+ever emits `HonestFwd` chunks (sender side: `adv_ack_only_over_abandoned` + `abandon_whole_message*` give the
+message-boundary and last-ssn parts for one call; the induction over sender histories is not done). -/
+def pr_delivery_full : Prop :=
+  ∀ (t : Tx) (rs : List SendReq) (arrivals : List Arrival) (st' : RxSt) (out : List Msg) (k : Nat),
+    (sentWire t rs).flatten.length < 2147483648 → rs.length < 32768 →
+    (∀ c, Arrival.data c ∈ arrivals → c ∈ (sentWire t rs).flatten) →
+    (∀ cum streams, Arrival.fwd cum streams ∈ arrivals → HonestFwd (sentMsgs t rs) cum streams) →
+    rxRun ({ last := tsn_minus_one t.localTsn, mis := [], dups := [] }, []) arrivals = .ok (st', out) →
+    let sends : List Msg := (rs.filter (·.sid == k)).map fun r => { sid := r.sid, ppid := r.ppid, data := r.data }
+    let got := out.filter (·.sid == k)
+    (∃ l, l.Sublist sends ∧ got.Perm l) ∧
+    ((∀ r ∈ rs, r.sid = k → r.ordered = true) → got.Sublist sends)
+
+/-! ## (f) recovery: the stream is not wedged behind an abandoned message -/
+
+/-- **pr_recovers_partial**.
+(1) After `prune_chunks(cum)` the head of the reassembly queue, if any, is a B fragment or is waiting for a
+fragment whose TSN the FORWARD TSN did not cover (it can still arrive): no orphan of a skipped message stays
+in front of an ordered stream.
+(2) Every run that is kept is not waiting for any TSN ≤ `cum`.
+(3) Once the queue is empty — everything older was delivered or pruned — a fresh message whose fragments
+all arrive is delivered at once by `pop_messages` (ordered: provided its sequence number is not ahead of the
+expected one, which `forward_tsn_seq_not_backwards` + the sender's `forward_tsn_streams` arrange), and the
+queue is empty again. -/
+theorem pr_recovers_partial :
+    (∀ (s : InStream) (cum : Int), ∀ h ∈ (s.pruneChunks cum).1.reasm.head?,
+        flagB h.flags = true ∨ uint32_gte cum (tsn_minus_one h.tsn) = false) ∧
+    (∀ (s : InStream) (cum : Int), ∃ kept : List (List RChunk), (s.pruneChunks cum).1.reasm = kept.flatten ∧
+        ∀ g ∈ kept, g ∈ runsOf s.reasm ∧ runDead cum g = false) ∧
+    (∀ (r : List RChunk) (hd e : RChunk) (seq : Int), FullRun r → r.head? = some hd → r.getLast? = some e →
+        (flagU hd.flags = true ∨ uint16_gt hd.ssn seq = false) →
+        ∃ seq', ({ reasm := r, seq := seq } : InStream).popMessages =
+          .ok ([{ sid := e.sid, ppid := e.ppid, data := r.flatMap (·.data) }], { reasm := [], seq := seq' })) := by
+  refine ⟨prune_head_not_wedged, ?_, ?_⟩
+  · intro s cum
+    refine ⟨(runsOf s.reasm).filter (fun g => !runDead cum g), by simp only [pruneChunks_eq], ?_⟩
+    intro g hg
+    have := List.mem_filter.1 hg
+    exact ⟨this.1, by simpa using this.2⟩
+  · intro r hd e seq hr hhd he hord
+    exact ⟨_, popMessages_single_run r hr hd e hhd he seq hord⟩
+
+/-- the fragments `_send` makes for a message are such a complete run once they have all arrived. -/
+example : FullRun [wA] := FullRun.single wA (by decide) (by decide)
+example : ({ reasm := [wA], seq := 0 } : InStream).popMessages =
+    .ok ([{ sid := 1, ppid := 53, data := [7, 8, 9] }], { reasm := [], seq := 1 }) := by decide
+
+/-- **Full recovery statement (NOT proved in Lean; checked on real runs by `oracle_recovers`).**  After the
+network heals, a message sent afterwards on a partially reliable channel is delivered.  The gap to
+`pr_recovers_partial` is liveness of the two-endpoint system (C02's fault-free continuation: retransmission
+timers, SACKs and the re-sent FORWARD TSN eventually empty the queue in front of the fresh message). -/
+def pr_recovers_full : Prop :=
+  ∀ (s : InStream) (cum : Int) (r : List RChunk) (hd e : RChunk),
+    -- everything in the queue is older than the FORWARD TSN and the FORWARD TSN ends at a message boundary
+    (∀ c ∈ s.reasm, uint32_gte cum c.tsn = true ∧ (flagE c.flags = false → uint32_gt cum c.tsn = true)) →
+    -- … and belongs to messages that are not ahead of the fresh one
+    (∀ c ∈ s.reasm, uint16_gt c.ssn hd.ssn = false) →
+    FullRun r → r.head? = some hd → r.getLast? = some e →
+    (∀ c ∈ r, uint32_gt c.tsn cum = true) →
+    ∃ (msgs : List Msg) (s' : InStream),
+      ({ (s.pruneChunks cum).1 with reasm := (s.pruneChunks cum).1.reasm ++ r, seq := hd.ssn } : InStream).popMessages
+        = .ok (msgs, s') ∧
+      ({ sid := e.sid, ppid := e.ppid, data := r.flatMap (·.data) } : Msg) ∈ msgs
+
 end Aiortc.Props.C06
